@@ -1,6 +1,10 @@
 //! shared machinery (DESIGN.md sec. 3)
 pub mod refalg;
 pub mod refmat;
+pub mod cube;
+pub mod dgen;
+pub mod diagram;
+pub mod khref;
 pub mod local;
 pub mod matgen;
 pub mod pools;
